@@ -65,6 +65,9 @@ pub struct Host {
     pub reenter_depth: u64,
     pub max_reenter_depth: u64,
     pub fails_fired: u64,
+    /// callee failures swallowed by try0
+    pub swallowed: u64,
+    pub swallowed_kinds: Vec<String>,
 }
 
 impl Host {
@@ -77,6 +80,8 @@ impl Host {
             reenter_depth: 0,
             max_reenter_depth: 0,
             fails_fired: 0,
+            swallowed: 0,
+            swallowed_kinds: vec![],
         }
     }
 }
@@ -203,11 +208,23 @@ fn reenter(vm: &mut Vm<Host>, name: &str, f: Value, args: &[Value]) -> R {
         vm.run_function(f)
     })();
     vm.auxiliary_data.reenter_depth -= 1;
+    if name == "try0" {
+        // a host that survives the failure of its callback and carries on
+        if let Err(e) = &r {
+            vm.auxiliary_data.swallowed += 1;
+            let k = error_kind(e);
+            vm.auxiliary_data.swallowed_kinds.push(k);
+        }
+        return leave(vm, Ok(r.unwrap_or(Value::Nil)));
+    }
     leave(vm, r)
 }
 
 pub fn stub_call0(vm: &mut Vm<Host>, f: Value) -> R {
     reenter(vm, "call0", f, &[])
+}
+pub fn stub_try0(vm: &mut Vm<Host>, f: Value) -> R {
+    reenter(vm, "try0", f, &[])
 }
 pub fn stub_call1(vm: &mut Vm<Host>, f: Value, a: Value) -> R {
     reenter(vm, "call1", f, &[a])
@@ -260,8 +277,8 @@ pub fn stub_t3(vm: &mut Vm<Host>, a: Value, b: Value, c: Value) -> R {
     leave(vm, Ok(a))
 }
 
-pub const STUB_NAMES: [&str; 11] = [
-    "log", "id", "mk_table", "mk_str", "call0", "call1", "call2", "fail", "mark", "t3", "mk_owned",
+pub const STUB_NAMES: [&str; 12] = [
+    "log", "id", "mk_table", "mk_str", "call0", "call1", "call2", "fail", "mark", "t3", "mk_owned", "try0",
 ];
 
 pub fn register_stubs(vm: &mut Vm<Host>) {
@@ -276,6 +293,7 @@ pub fn register_stubs(vm: &mut Vm<Host>) {
     vm.register_native_function("mark", into_f1(stub_mark)).unwrap();
     vm.register_native_function("t3", into_f3(stub_t3)).unwrap();
     vm.register_native_function("mk_owned", into_f1(stub_mk_owned)).unwrap();
+    vm.register_native_function("try0", into_f1(stub_try0)).unwrap();
 }
 
 pub fn error_kind(e: &ExecutionErrorPayload) -> String {
@@ -327,6 +345,8 @@ pub struct RunOut {
     pub end_objects: usize,
     pub peak_stack_height: usize,
     pub host_fails_fired: u64,
+    pub host_swallowed: u64,
+    pub host_swallowed_kinds: Vec<String>,
     pub max_reenter_depth: u64,
     pub event_hash: u64,
     pub events: Vec<String>,
@@ -408,6 +428,8 @@ pub fn collect(
         end_objects,
         peak_stack_height: 0,
         host_fails_fired: vm.auxiliary_data.fails_fired,
+        host_swallowed: vm.auxiliary_data.swallowed,
+        host_swallowed_kinds: vm.auxiliary_data.swallowed_kinds.clone(),
         max_reenter_depth: vm.auxiliary_data.max_reenter_depth,
         event_hash: ctl.event_hash(),
         events: vec![],
@@ -523,6 +545,8 @@ pub fn empty_out() -> RunOut {
         end_objects: 0,
         peak_stack_height: 0,
         host_fails_fired: 0,
+        host_swallowed: 0,
+        host_swallowed_kinds: vec![],
         max_reenter_depth: 0,
         event_hash: 0,
         events: vec![],
